@@ -181,7 +181,9 @@ def run(ctx):
     ctx.suites["STREAM-BIG"]["largest_stream_bytes"] = max(len(interpret(sc)[0]) for _, sc in big)
     # files
     sizes = [0, 1, 49, 50, 51, 5000, BUF + 5] if ctx.tier == "quick" else [0, 1, 9, 10, 49, 50, 51, 255, 256, 5000, 65536, BUF - 1, BUF, BUF + 1, 2 * BUF + 77]
-    fcases = ["file %s %d %d" % (v, s, 1000 + s % 97) for v in (["N", "S"] if ctx.tier == "quick" else VNAMES) for s in sizes]
+    # files beyond 100 kB cost the model ~130 us/byte twice (hash_file and hash_buf): two variants get them in thorough
+    fcases = ["file %s %d %d" % (v, s, 1000 + s % 97) for v in (["N", "S"] if ctx.tier == "quick" else VNAMES) for s in sizes
+              if s <= 100000 or v in ("N", "LL") or ctx.tier == "quick"]
     fcases += ["nofile %s" % v for v in VNAMES]
 
     def fpred(c, i, m):
